@@ -4,8 +4,10 @@
    Grafts(q) is the set of terms obtained from q by replacing exactly one sub-term
    by a construct the backend cannot express, at every position where it fits:
      numeric sub-term t      t // 2, t & 1, ~t, 0 < t < 5, t.Count(), t.Select(x: x).Sum()
-     aggregate over s        s + 1, s.Aggregate(f), s.Aggregate(f0, f), s.Count(1)
-     method call r.m()       r itself (a raw object), r.getAttribute('m') (ATLAS only)
+     aggregate over s        s <op> 2 and 2 <op> s for every arithmetic operator, s.Aggregate(f),
+                             s.Aggregate(f0, f), s.Count(1)
+     method call r.m()       r itself (a raw object), r <op> 2 (arithmetic on an object),
+                             r.getAttribute('m') (ATLAS only)
      First(s)                s.First(lambda x: True)   (a request that must not be dropped)
      v[i]                    v[0:1]
      the dataset             MetaData with an unknown / malformed / foreign declaration
@@ -23,6 +25,7 @@ IsNumNode(t) == \/ t.k \in {"Bin", "Count", "Sum", "Min", "Max", "Aggregate", "M
                 \/ (t.k = "Const" /\ t.a # "bool")
                 \/ (t.k = "Meth" /\ t.a \in NumMethodNames)
 IsAggNode(t) == t.k \in {"Count", "Sum", "Min", "Max"}
+ArithOps == {"+", "-", "*", "/", "%", "**"}
 
 \* <<how, replacement>> for the sub-term t
 Wrappers(t) ==
@@ -35,13 +38,16 @@ Wrappers(t) ==
          <<"select_of_value", T("Sum", "", 0, <<T("Select", "vx", 0, <<t, VarN("vx")>>)>>)>>}
    ELSE {})
   \cup (IF IsAggNode(t)
-        THEN {<<"seq_arith", T("Bin", "+", 0, <<t.ch[1], CI(1)>>)>>,
+        THEN {<<"seq_arith_" \o op, T("Bin", op, 0, <<t.ch[1], CI(2)>>)>> : op \in ArithOps}
+             \cup {<<"arith_seq_" \o op, T("Bin", op, 0, <<CI(2), t.ch[1]>>)>> : op \in ArithOps}
+             \cup {<<"seq_arith", T("Bin", "+", 0, <<t.ch[1], CI(1)>>)>>,
               <<"agg_only", T("AggOnly", "", 0, <<t.ch[1]>>)>>,
               <<"agg_func", T("AggFunc", "", 0, <<t.ch[1]>>)>>,
               <<"count_extra_arg", T("CountExtra", "", 0, <<t.ch[1]>>)>>}
         ELSE {})
   \cup (IF t.k = "Meth" /\ t.a \in NumMethodNames
         THEN {<<"raw_object", t.ch[1]>>, <<"getattribute@atlas", T("GetAttr", t.a, 0, <<t.ch[1]>>)>>}
+             \cup {<<"obj_arith_" \o op, T("Bin", op, 0, <<t.ch[1], CI(2)>>)>> : op \in ArithOps}
         ELSE {})
   \cup (IF t.k = "First" THEN {<<"first_predicate", T("FirstPred", "", 0, <<t.ch[1]>>)>>} ELSE {})
   \cup (IF t.k = "Idx" THEN {<<"slice", T("Slice", "", 0, <<t.ch[1]>>)>>} ELSE {})
